@@ -1,4 +1,5 @@
 import QcoVerif.Lemmas.KernelCircuit
+import QcoVerif.Lemmas.KernelProgram
 import QcoVerif.Properties.C12
 /-
   C13 — index kernels agree with the experiment circuit they describe.
@@ -175,5 +176,150 @@ theorem data_qubit_indices_differ_witness :
     ∃ K, ExpKernel.new? [3, 1] true true [0] [1] 1 = some K ∧
       positions .final (dataTags [3, 1]) = [1, 3, 5, 7, 9] ∧
       K.projectedCycle 0 3 = some [[3]] ∧ K.projectedCycle 0 1 = some [[5]] := ⟨_, rfl, rfl, rfl, rfl⟩
+
+/-! ## The tag sequence DERIVED from the program model of the constructor (Lemmas/KernelProgram.lean)
+
+`RepCode.program desc cycles ds as` (Model/RepCode.lean) is the exported Stim program of
+`construct_repetition_code_circuit(cycles, desc, initial_state)` — the model C09 compares with the real `to_stim`
+text on every run. Its `M` instructions are the `DispersiveMeasure`s of the circuit, in listing order. The theorems
+below read the per-qubit tag sequence off THAT program, for every cycle count and every description with distinct
+qubit indices, and so replace "the tag sequence is read off the constructor code" by a proof for the block part.
+
+What the program model does not contain: the acquisition TAG (a Stim `M` has none) and the calibration circuit.
+ * tags: `KernelProgram.parts` splits the program into the three sub-circuits the constructor adds (`parts_flatten`:
+   the concatenation is the program, definitionally the split `initPart ++ unroll qecBlocks ++ finalPart` of
+   `RepCode.programWith`); every measurement of a part carries the tag its constructor function writes
+   (`get_circuit_initialize_with_heralded`: 'heralded'; `get_circuit_qec_with_detectors`: 'parity', 0 cycles: 'final';
+   `get_circuit_final_measurement`: 'final');
+ * calibration: `KernelProgram.calRecord` is the acquisition record of `construct_calibration_circuit(QUTRIT)` only
+   (three times: every calibrated qubit 'heralded', then every calibrated qubit 'final'); it is a specification read
+   off the code like the tag sequence was, NOT derived from a program model. -/
+
+open Qco.RepCode Qco.StimSem Qco.KernelProgram
+
+variable {desc : RepCode.Desc} {cycles : Nat} {ds as : List Bool} {p prep : List Ins} {q : Nat} {cal : List Nat}
+
+/-- (a) THE MEASUREMENT INSTRUCTIONS OF ONE BLOCK, in program order — every description, every cycle count, every
+concrete initial state: the heralding measurement of every qubit (`qubit_ids` order), then per QEC cycle every ancilla
+(`measure_ancilla_qubit_indices` order) — ONCE if there is no cycle at all —, then every data qubit. -/
+theorem program_measurements (hp : program desc cycles ds as = some p) :
+    measured p = desc.allIdx ++ (List.replicate (if cycles = 0 then 1 else cycles) desc.measAnc).flatten
+                  ++ desc.measData :=
+  measured_program hp
+
+example : ∃ p, program (chainDesc 2 true) 2 [true, false] [] = some p ∧ measured p = [0, 1, 2, 1, 1, 0, 2] :=
+  ⟨_, rfl, by decide⟩
+
+/-- (a) for an ANCILLA of a description with distinct qubit indices: the program is the concatenation of the three
+tagged parts, the acquisition record forgets to the program's `M` targets, and the ancilla's own acquisitions are
+`heralded`, then `cycles` × `parity` (0 cycles: one `final`) — exactly `Circuit.ancillaBlock cycles`; as a count:
+`1 + max 1 cycles` instructions `M q`. -/
+theorem program_ancilla_block (hwf : desc.wellFormed = true) (hq : q ∈ desc.ancIdx)
+    (hp : program desc cycles ds as = some p) :
+    ∃ prep, prepConc desc ds as = some prep ∧
+      p = (parts desc cycles prep).flatMap (·.2) ∧
+      (acqRecord desc cycles prep).map (·.1) = measured p ∧
+      tagsOf q (acqRecord desc cycles prep) = ancillaBlock cycles ∧
+      measCount q p = (ancillaBlock cycles).length ∧
+      p.countP (· == Ins.M q) = 1 + (if cycles = 0 then 1 else cycles) := by
+  obtain ⟨prep, hprep, rfl⟩ := program_eq hp
+  have hn := allIdx_nodup_of_wellFormed hwf
+  have hm := measured_prepConc hprep
+  have hc := measCount_ancilla hn hq cycles hm
+  refine ⟨prep, hprep, (parts_flatten _ _ _).symm, acqRecord_qubits _ _ _, ancilla_tags hn hq cycles hm, ?_, ?_⟩
+  · rw [hc]
+    unfold ancillaBlock qecMeasurements
+    split <;> simp <;> omega
+  · rw [← measCount_eq_countP, hc]; rfl
+
+example : (chainDesc 3 true).wellFormed = true ∧ 3 ∈ (chainDesc 3 true).ancIdx ∧
+    ∃ p, program (chainDesc 3 true) 5 [true, false, true] [] = some p := ⟨by decide, by decide, _, rfl⟩
+
+/-- (a) for a DATA qubit: `heralded`, `final` — `Circuit.dataBlock cycles` —, two instructions `M q`, for every
+cycle count. -/
+theorem program_data_block (hwf : desc.wellFormed = true) (hq : q ∈ desc.dataIdx)
+    (hp : program desc cycles ds as = some p) :
+    ∃ prep, prepConc desc ds as = some prep ∧
+      p = (parts desc cycles prep).flatMap (·.2) ∧
+      (acqRecord desc cycles prep).map (·.1) = measured p ∧
+      tagsOf q (acqRecord desc cycles prep) = dataBlock cycles ∧
+      p.countP (· == Ins.M q) = 2 := by
+  obtain ⟨prep, hprep, rfl⟩ := program_eq hp
+  have hn := allIdx_nodup_of_wellFormed hwf
+  have hm := measured_prepConc hprep
+  refine ⟨prep, hprep, (parts_flatten _ _ _).symm, acqRecord_qubits _ _ _, data_tags hn hq cycles hm, ?_⟩
+  rw [← measCount_eq_countP, measCount_data hn hq cycles hm]
+
+example : (chainDesc 3 true).wellFormed = true ∧ 2 ∈ (chainDesc 3 true).dataIdx ∧
+    ∃ p, program (chainDesc 3 true) 5 [true, false, true] [] = some p := ⟨by decide, by decide, _, rfl⟩
+
+/-- The documented 0-round difference, on the program: with no QEC cycle the ancilla is still measured a second time
+(the 0-cycle branch of `get_circuit_qec_with_detectors`), tagged `final`; it occupies the slot for which the kernel
+reports no projected index (`kernel_eq_circuit`, third clause). -/
+theorem program_zero_round_block (hwf : desc.wellFormed = true) (hq : q ∈ desc.ancIdx)
+    (hprep : prepConc desc ds as = some prep) :
+    tagsOf q (acqRecord desc 0 prep) = [Tag.heralded, Tag.final] ∧
+    measCount q (programWith desc 0 prep) = 2 := by
+  have hn := allIdx_nodup_of_wellFormed hwf
+  have hm := measured_prepConc hprep
+  exact ⟨ancilla_tags hn hq 0 hm, measCount_ancilla hn hq 0 hm⟩
+
+example : (chainDesc 2 true).wellFormed = true ∧ 1 ∈ (chainDesc 2 true).ancIdx ∧
+    prepConc (chainDesc 2 true) [true, false] [] = some [Ins.X 0, Ins.I 2] ∧
+    acqRecord (chainDesc 2 true) 0 [Ins.X 0, Ins.I 2] =
+      [(0, .heralded), (1, .heralded), (2, .heralded), (1, .final), (0, .final), (2, .final)] :=
+  ⟨by decide, by decide, rfl, by decide⟩
+
+/-- (b) THE ROUNDS LIST. The acquisition record of the experiment — one block program per rounds entry (same
+description, same initial state), then the calibration record on the qubits `cal` — restricted to an ancilla is the
+tag sequence `Circuit.ancillaTags rounds`; restricted to a data qubit it is `Circuit.dataTags rounds`. The rounds part
+of the record forgets to the `M` targets of the concatenated block programs. -/
+theorem program_tag_sequence (hwf : desc.wellFormed = true) (hprep : prepConc desc ds as = some prep)
+    (rounds : List Nat) (hn : cal.Nodup) (hc : q ∈ cal) :
+    (roundsRecord desc rounds prep).map (·.1) = measured (roundsProgram desc rounds prep) ∧
+    (q ∈ desc.ancIdx → tagsOf q (experimentRecord desc rounds prep cal) = ancillaTags rounds) ∧
+    (q ∈ desc.dataIdx → tagsOf q (experimentRecord desc rounds prep cal) = dataTags rounds) := by
+  have hnd := allIdx_nodup_of_wellFormed hwf
+  have hm := measured_prepConc hprep
+  exact ⟨roundsRecord_qubits _ _ _, fun hq => experiment_tags_anc hnd hq rounds hm hn hc,
+    fun hq => experiment_tags_data hnd hq rounds hm hn hc⟩
+
+example : (chainDesc 2 true).wellFormed = true ∧
+    prepConc (chainDesc 2 true) [true, false] [] = some [Ins.X 0, Ins.I 2] ∧
+    (chainDesc 2 true).allIdx.Nodup ∧ 1 ∈ (chainDesc 2 true).allIdx ∧ 1 ∈ (chainDesc 2 true).ancIdx ∧
+    0 ∈ (chainDesc 2 true).dataIdx ∧ 0 ∈ (chainDesc 2 true).allIdx :=
+  ⟨by decide, rfl, by decide, by decide, by decide, by decide, by decide⟩
+
+/-- (b) KERNEL = PROGRAM. For an ancilla `q` of a description with distinct qubit indices, the per-qubit acquisition
+indices (`get_acquisition_indices(AcquisitionTag(q, tag))` = running index among the acquisitions of `q`) in the
+record of the block programs of `rounds` followed by the calibration record are the indices of the experiment kernel
+built for the same rounds over the description's data / ancilla indices — with the documented exception: one `final`
+index per 0-round entry (the slot `k.stopIndex` for which the kernel has no projected index). -/
+theorem program_kernel_eq_circuit (hwf : desc.wellFormed = true) (hprep : prepConc desc ds as = some prep)
+    (hK : ExpKernel.new? rounds true true desc.dataIdx desc.ancIdx 1 = some K) (hq : q ∈ desc.ancIdx)
+    (hn : cal.Nodup) (hc : q ∈ cal) :
+    (acqIndices q .heralded (experimentRecord desc rounds prep cal)).map Int.ofNat
+      = (K.repKernels.map (fun k => k.heraldedIdx q)).flatten
+          ++ (K.calKernel.heralded0 q ++ K.calKernel.heralded1 q ++ K.calKernel.heralded2 q) ∧
+    (acqIndices q .parity (experimentRecord desc rounds prep cal)).map Int.ofNat
+      = (K.repKernels.map (fun k => k.stabIdx q ++ k.finalIdx q)).flatten ∧
+    (acqIndices q .final (experimentRecord desc rounds prep cal)).map Int.ofNat
+      = (K.repKernels.map (fun k => if k.nr = 0 then [k.stopIndex] else [])).flatten
+          ++ (K.calKernel.state0 q ++ K.calKernel.state1 q ++ K.calKernel.state2 q) ∧
+    ((tagsOf q (experimentRecord desc rounds prep cal)).length : Int) = K.cycleLength := by
+  have ht := experiment_tags_anc (allIdx_nodup_of_wellFormed hwf) hq rounds (measured_prepConc hprep) hn hc
+  simp only [acqIndices, ht]
+  obtain ⟨h1, h2, h3⟩ := kernel_eq_circuit hK hq
+  exact ⟨h1, h2, h3, count_eq_cycle_length hK⟩
+
+/-- non-vacuity: distance-2 chain (data 0, 2; ancilla 1), rounds `[0, 3]`, calibration on all three qubits -/
+example : ∃ K, (chainDesc 2 true).wellFormed = true ∧
+    prepConc (chainDesc 2 true) [true, false] [] = some [Ins.X 0, Ins.I 2] ∧
+    ExpKernel.new? [0, 3] true true (chainDesc 2 true).dataIdx (chainDesc 2 true).ancIdx 1 = some K ∧
+    1 ∈ (chainDesc 2 true).ancIdx ∧ [0, 1, 2].Nodup ∧ 1 ∈ [0, 1, 2] ∧
+    acqIndices 1 .final (experimentRecord (chainDesc 2 true) [0, 3] [Ins.X 0, Ins.I 2] [0, 1, 2]) = [1, 7, 9, 11] ∧
+    acqIndices 1 .parity (experimentRecord (chainDesc 2 true) [0, 3] [Ins.X 0, Ins.I 2] [0, 1, 2]) = [3, 4, 5] :=
+  ⟨_, by decide, rfl, rfl, by decide, by decide, by decide, by decide, by decide⟩
+
 
 end Qco.C13
